@@ -11,6 +11,7 @@ import (
 
 	"github.com/ThreeDotsLabs/watermill"
 	"github.com/ThreeDotsLabs/watermill/internal"
+	"github.com/ThreeDotsLabs/watermill/internal/verifhook"
 	sync_internal "github.com/ThreeDotsLabs/watermill/pubsub/sync"
 )
 
@@ -446,6 +447,7 @@ func (r *Router) RunHandlers(ctx context.Context) error {
 		h.messagesCh = messages
 		h.started = true
 		close(h.startedCh)
+		verifhook.At("router.runhandlers.started", h)
 
 		h.stopFn = cancel
 		h.stopped = make(chan struct{})
@@ -562,8 +564,10 @@ func (r *Router) Close() error {
 
 	close(r.closingInProgressCh)
 	defer close(r.closedCh)
+	verifhook.At("router.close.signalled", r)
 
 	timedout := r.waitForHandlers()
+	verifhook.At("router.close.wait_done", r)
 	if timedout {
 		return errors.New("router close timeout")
 	}
@@ -643,6 +647,7 @@ func (h *handler) run(ctx context.Context, middlewares []middleware) {
 	go h.handleClose(ctx)
 
 	for msg := range h.messagesCh {
+		verifhook.At("router.run.received", h)
 		h.runningHandlersWgLock.Lock()
 		h.runningHandlersWg.Add(1)
 		h.runningHandlersWgLock.Unlock()
@@ -770,6 +775,7 @@ func (h *handler) addHandlerContext(messages ...*Message) {
 }
 
 func (h *handler) handleClose(ctx context.Context) {
+	verifhook.At("router.handleclose.before_select", h)
 	select {
 	case <-h.routersCloseCh:
 		// for backward compatibility we are closing subscriber
@@ -786,6 +792,7 @@ func (h *handler) handleClose(ctx context.Context) {
 
 func (h *handler) handleMessage(msg *Message, handler HandlerFunc) {
 	defer h.runningHandlersWg.Done()
+	verifhook.At("router.handle.start", h)
 	msgFields := watermill.LogFields{"message_uuid": msg.UUID}
 
 	defer func() {
@@ -811,6 +818,7 @@ func (h *handler) handleMessage(msg *Message, handler HandlerFunc) {
 	}
 
 	h.addHandlerContext(producedMessages...)
+	verifhook.At("router.handle.before_publish", h)
 
 	if err := h.publishProducedMessages(producedMessages, msgFields); err != nil {
 		h.logger.Error("Publishing produced messages failed", err, nil)
@@ -818,6 +826,7 @@ func (h *handler) handleMessage(msg *Message, handler HandlerFunc) {
 		return
 	}
 
+	verifhook.At("router.handle.before_settle", h)
 	msg.Ack()
 	h.logger.Trace("Message acked", msgFields)
 }
